@@ -278,5 +278,11 @@ func init() {
 			Find: `\n\tvs\.MostVotedPrecommitHash = ""\n`, Repl: "\n", Expect: []string{"C06.6"}},
 		Mutant{Prop: "C13", Name: "binomial-on-machine-words", File: "gcrypto/gblsminsig/signatureproofscheme.go", Func: "binomialCoefficient",
 			Find: `out\.Binomial\(int64\(n\), int64\(k\)\)`, Repl: "if n <= 67 {\n\t\tkk := min(k, n-k)\n\t\tc := uint64(1)\n\t\tfor i := 1; i <= kk; i++ {\n\t\t\tc = c * uint64(n-kk+i) / uint64(i)\n\t\t}\n\t\tout.SetUint64(c)\n\t\treturn\n\t}\n\tout.Binomial(int64(n), int64(k))", Expect: []string{"C13.8"}},
+		Mutant{Prop: "C11", Name: "summary-clone-shares-power-map", File: fVS, Func: "VoteSummary.Clone",
+			Find: `PrevoteBlockPower:   maps\.Clone\(vs\.PrevoteBlockPower\),`, Repl: "PrevoteBlockPower:   vs.PrevoteBlockPower,", Expect: []string{"C11.8"}},
+		Mutant{Prop: "C11", Name: "view-clone-shares-proof-objects", File: "tm/tmconsensus/roundview.go", Func: "RoundView.Clone",
+			Find: `prevoteClone\[k\] = v\.Clone\(\)`, Repl: "prevoteClone[k] = v", Expect: []string{"C11.8"}},
+		Mutant{Prop: "C11", Name: "versioned-clone-drops-precommit-version", File: "tm/tmconsensus/roundview.go", Func: "VersionedRoundView.Clone",
+			Find: `\n\t\tPrecommitVersion: v\.PrecommitVersion,\n`, Repl: "\n", Expect: []string{"C11.8"}},
 	)
 }
